@@ -1,5 +1,6 @@
 import Gbo.Props.C01
 import Gbo.Proofs.FillRoles
+import Gbo.Proofs.FieldsOp
 /-
   C05 — the four operations are mutually consistent.
 -/
@@ -80,6 +81,31 @@ theorem C05_event_order_ignores_roles (a a' : Arena) (h : a.map stripRole = a'.m
 theorem C05_fillQueue_roles_differ :
     ((fillQueue [{ ext := [⟨0,0⟩, ⟨1,0⟩, ⟨0,1⟩, ⟨0,0⟩], holes := [] }] [{ ext := [⟨0,0⟩, ⟨2,0⟩, ⟨0,2⟩, ⟨0,0⟩], holes := [] }] .union).fq.arena[6]!).contourId
     ≠ ((fillQueue [{ ext := [⟨0,0⟩, ⟨1,0⟩, ⟨0,1⟩, ⟨0,0⟩], holes := [] }] [{ ext := [⟨0,0⟩, ⟨2,0⟩, ⟨0,2⟩, ⟨0,0⟩], holes := [] }] .difference).fq.arena[6]!).contourId := by
+  decide +kernel
+
+/-- C05, first anchor (`compute_fields`): the operation decides `result_transition` (hence `in_result`) and,
+    through it, `prev_in_result` — nothing else.  Two arenas that agree on every other field still do after
+    `compute_fields`, whatever the two operations are. -/
+theorem C05_computeFields_op_independent (a a' : Arena) (h : a.map stripResult = a'.map stripResult)
+    (event : Nat) (prev : Option Nat) (op op' : Op) :
+    (computeFields a event prev op).map stripResult = (computeFields a' event prev op').map stripResult :=
+  computeFields_stripResult a a' h event prev op op'
+
+/-- … in particular the in/out classification of every event (C14's flags), its edge type, its point and
+    its links are the same for all four operations -/
+theorem C05_computeFields_flags_same (a : Arena) (event : Nat) (prev : Option Nat) (op op' : Op) (j : Nat) :
+    (computeFields a event prev op)[j]!.inOut = (computeFields a event prev op')[j]!.inOut
+    ∧ (computeFields a event prev op)[j]!.otherInOut = (computeFields a event prev op')[j]!.otherInOut
+    ∧ (computeFields a event prev op)[j]!.point = (computeFields a event prev op')[j]!.point
+    ∧ (computeFields a event prev op)[j]!.other = (computeFields a event prev op')[j]!.other := by
+  have h := fields_of_stripResult_eq
+    (stripResult_pointwise (computeFields_stripResult a a rfl event prev op op') j)
+  exact ⟨h.2.2.2.2.1, h.2.2.2.2.2, h.1, h.2.2.2.1⟩
+
+/-- not vacuous: the forgotten field does depend on the operation -/
+theorem C05_computeFields_result_differs :
+    (computeFields (fillQueue [{ ext := [⟨0,0⟩, ⟨1,0⟩, ⟨0,1⟩, ⟨0,0⟩], holes := [] }] [] .union).fq.arena 0 none .union)[0]!.resTrans
+    ≠ (computeFields (fillQueue [{ ext := [⟨0,0⟩, ⟨1,0⟩, ⟨0,1⟩, ⟨0,0⟩], holes := [] }] [] .union).fq.arena 0 none .intersection)[0]!.resTrans := by
   decide +kernel
 
 end Gbo.Props
